@@ -97,7 +97,9 @@ func (f *Dotimes) Call(s *slip.Scope, args slip.List, depth int) slip.Object {
 					}
 					return tr
 				case *GoTo:
-					for i++; i < len(args); i++ {
+					// The tag can be anywhere in the body, before the go
+					// as well.
+					for i = 1; i < len(args); i++ {
 						if args[i] == tr.Tag {
 							break
 						}
